@@ -307,6 +307,25 @@ PagLinksInv ==
             /\ ans[Len(ans)].done
             /\ \A j \in 1..(Len(ans) - 1) : ~ans[j].done /\ ~ans[j].tnone /\ ans[j].n = k
 
+(* get_page_links, links_iter, counting scans and metrics compute the declarative figures *)
+PageLinksInv ==
+  \A l \in abs.pages \cup ProbeLrus : \A inb \in BOOLEAN, internal \in BOOLEAN, outb \in BOOLEAN :
+    LET got == PageLinksBlocks(st.trie, st.ls, l, inb, internal, outb)
+        want == (IF outb THEN { e \in abs.links : e[1] = l /\ e[2] # l } ELSE {})
+                \cup (IF internal THEN { e \in abs.links : e[1] = l /\ e[2] = l } ELSE {})
+                \cup (IF inb THEN { e \in abs.links : e[2] = l /\ e[1] # l } ELSE {})
+    IN SeqToSet(got) = want /\ Len(got) = Cardinality(want)
+ScansInv ==
+  /\ CountPagesScan(st.trie) = Cardinality(abs.pages)
+  /\ CountCrawledScan(st.trie) = Cardinality(abs.crawled)
+  /\ CountLinksBlocks(st.ls) = SumW(abs.links)
+  /\ SeqToSet(LinksIterBlocks(st.trie, st.ls, TRUE)) = BagPairs(abs.links)
+  /\ { <<e[2], e[1]>> : e \in SeqToSet(LinksIterBlocks(st.trie, st.ls, FALSE)) } = BagPairs(abs.links)
+  /\ LET m == TrieMetricsBlocks(st.trie) IN
+       m.pages = Cardinality(abs.pages) /\ m.stems = Cardinality(abs.known) /\ m.nodes = m.stems + m.tails
+  /\ LET x == LinksMetricsBlocks(st.trie, st.ls) IN
+       x.maxout = SetMax({ Cardinality({ e \in abs.links : e[1] = p }) : p \in abs.pages })
+
 (* C20 (with the known finding: a page nobody links to counts 1) *)
 TopInv ==
   \A w \in WeIds(abs) : \A k \in 1..3 : \A depth \in {Unlimited, 0, 1} :
